@@ -31,6 +31,12 @@ class P1(object):
         o = OFFS[v % len(OFFS)]
         return self.lo + (self.hi - self.lo) * ((np.arange(n) + o) / n)
 
+    def special(self, rng):
+        """Points a template would otherwise never produce: ends, simple fractions of the region, the origin."""
+        lo, hi = self.lo, self.hi
+        return rng.choice([lo, hi, 0.5 * (lo + hi), lo + (hi - lo) / 3.0, lo + 2.0 * (hi - lo) / 3.0, lo + (hi - lo) / 4.0,
+                           lo + (hi - lo) / 5.0, 0.0, hi * 0.5, hi / 3.0, 2.0 * hi / 3.0])
+
 
 class PBox(object):
     """(N,d) request in a box; optional reject predicate on a single point."""
@@ -54,6 +60,15 @@ class PBox(object):
             out.append(p)
         return np.array(out)
 
+    def special(self, rng):
+        d = len(self.lo)
+        for _ in range(20):
+            p = np.array([rng.choice([self.lo[k], self.hi[k], 0.5 * (self.lo[k] + self.hi[k]), 0.0,
+                                      self.lo[k] + (self.hi[k] - self.lo[k]) / 3.0]) for k in range(d)])
+            if self.reject is None or not self.reject(p):
+                return p
+        return None
+
 
 class P2N(object):
     """(2,N) request: two coordinate arrays (the three 2-D heat solvers' own convention)."""
@@ -68,6 +83,10 @@ class P2N(object):
         a = self.lo[0] + (self.hi[0] - self.lo[0]) * ((np.arange(n) + o) / n)
         b = self.lo[1] + (self.hi[1] - self.lo[1]) * np.array([frac((i + 1) * ALPHA[1] + o2) for i in range(n)])
         return np.array([a, b])
+
+    def special(self, rng):
+        return np.array([rng.choice([self.lo[k], self.hi[k], 0.5 * (self.lo[k] + self.hi[k]), 0.0,
+                                     self.lo[k] + (self.hi[k] - self.lo[k]) / 3.0]) for k in range(2)])
 
 
 class PMesh(object):
@@ -419,3 +438,23 @@ def pool_for(qual, cls):
         kw = {k: v for k, v in fam.pool[0].kwargs.items() if k in cls.parameters and k != "geometry"}
         out.append((0, kw))
     return fam, out
+
+
+def build_auto(path):
+    """Append the committed one-at-a-time parameter variants (auto_pool.json) to the family pools."""
+    import json
+    import os
+    from .codec import dec
+    if not os.path.exists(path):
+        return 0
+    with open(path) as f:
+        data = json.load(f)["families"]
+    n = 0
+    for fname, variants in sorted(data.items()):
+        fam = FAMILIES.get(fname)
+        if fam is None:
+            continue
+        for v in variants:
+            fam.pool.append(PSet(dec(v["kwargs"]), fam.pool[0].pts, fam.pool[0].times, note="auto:" + v["param"]))
+            n += 1
+    return n
